@@ -42,17 +42,17 @@ uint64_t __CPROVER_uninterpreted_OP3(uint32_t a, uint32_t b, uint32_t c);
 HT1_PAIR cell_hit1; HT2_PAIR cell_hit2; HT3_PAIR cell_hit3; uint64_t g_ht_clears;
 #define REC_GHOSTS TAB_GHOSTS, cell_hit1, cell_hit2, cell_hit3
 #define CONTRACT_REC1 \
-  __CPROVER_requires(__CPROVER_is_fresh(v_node1, sizeof(NP)) && v_node1->f0 != 0) \
+  __CPROVER_requires(__CPROVER_is_fresh(v_node1, sizeof(NP)) && v_node1->f0 != 0 && g_inc_calls == 0) \
   __CPROVER_assigns(REC_GHOSTS) \
-  __CPROVER_ensures(APPLY1_OK(__CPROVER_return_value, v_node1->f0))
+  __CPROVER_ensures(APPLY1_OK(__CPROVER_return_value, v_node1->f0) && g_inc_calls == 0 /* the result is floating: recDescend itself counts nothing (C18) */)
 #define CONTRACT_REC2 \
-  __CPROVER_requires(__CPROVER_is_fresh(v_node1, sizeof(NP)) && __CPROVER_is_fresh(v_node2, sizeof(NP)) && v_node1->f0 != 0 && v_node2->f0 != 0) \
+  __CPROVER_requires(__CPROVER_is_fresh(v_node1, sizeof(NP)) && __CPROVER_is_fresh(v_node2, sizeof(NP)) && v_node1->f0 != 0 && v_node2->f0 != 0 && g_inc_calls == 0) \
   __CPROVER_assigns(REC_GHOSTS) \
-  __CPROVER_ensures(APPLY2_OK(__CPROVER_return_value, v_node1->f0, v_node2->f0))
+  __CPROVER_ensures(APPLY2_OK(__CPROVER_return_value, v_node1->f0, v_node2->f0) && g_inc_calls == 0)
 #define CONTRACT_REC3 \
-  __CPROVER_requires(v_node1_coerce != 0 && v_node2_coerce != 0 && v_node3_coerce != 0) \
+  __CPROVER_requires(v_node1_coerce != 0 && v_node2_coerce != 0 && v_node3_coerce != 0 && g_inc_calls == 0) \
   __CPROVER_assigns(REC_GHOSTS) \
-  __CPROVER_ensures(APPLY3_OK(__CPROVER_return_value, v_node1_coerce, v_node2_coerce, v_node3_coerce))
+  __CPROVER_ensures(APPLY3_OK(__CPROVER_return_value, v_node1_coerce, v_node2_coerce, v_node3_coerce) && g_inc_calls == 0)
 
 /* ---------------- Apply*::operator(): result handle = apply of the roots, default = op of the defaults, one counted handle, memo cleared first */
 #define APPLY_FRAME REC_GHOSTS, g_ht_clears, v_agg_result->f0.f0, v_agg_result->f1
@@ -75,3 +75,32 @@ HT1_PAIR cell_hit1; HT2_PAIR cell_hit2; HT3_PAIR cell_hit3; uint64_t g_ht_clears
   __CPROVER_assigns(APPLY_FRAME, v_this->f0, v_this->f1, v_this->f2) \
   __CPROVER_ensures(APPLY3_OK(v_agg_result->f0.f0, v_mtbdd1->f0.f0, v_mtbdd2->f0.f0, v_mtbdd3->f0.f0) && v_agg_result->f1 == OPF3(v_mtbdd1->f1, v_mtbdd2->f1, v_mtbdd3->f1)) \
   __CPROVER_ensures(g_inc_calls == 1 && g_inc_arg == v_agg_result->f0.f0 && g_ht_clears == 1)
+
+/* ---------------- constructMTBDD(asgn, node, default, varTrans): the diagram that selects `node` on the assignments matching asgn
+   (on its non-X positions, variable i of asgn being variable i+off of the diagram) and is `default` elsewhere ---------------------- */
+extern uint8_t T_MATCH[__CPROVER_constant_infinity_uint];   /* T_MATCH[i] != 0: the ghost assignment matches asgn on positions < i */
+uint64_t g_len, g_node; uint32_t* g_dfltp; uint64_t* g_offp;
+#define STEP(i)  (T_ASG[i] == 2 ? T_BIT[(i) + g_off] == 2 : (T_ASG[i] == 1 ? T_BIT[(i) + g_off] != 2 : 1))
+#define MATCH_UNFOLD(i) ((T_MATCH[(i) + 1] != 0) == (T_MATCH[i] != 0 && STEP(i)))
+#define SEL(i)   ((uint32_t)(T_MATCH[i] != 0 ? T_VAL[g_node] : g_dflt))
+#define PRE_CONSTRUCT \
+  __CPROVER_requires(v_asgn == g_a && v_node_coerce == g_node && g_node != 0 && v_defaultValue == g_dfltp && *g_dfltp == g_dflt) \
+  __CPROVER_requires(LEVEL(g_node) <= g_off /* variables of node lie below the translated range */ && g_len < UINT64_MAX - g_off /* no wrap of var + offset */) \
+  __CPROVER_requires(T_MATCH[0] != 0 && g_inc_calls == 0 && g_dleaf_calls == 0)
+#define POST_CONSTRUCT(r) \
+  __CPROVER_ensures((r) != 0 && T_VAL[r] == SEL(g_len)) \
+  __CPROVER_ensures(LEVEL(r) <= g_len + g_off) \
+  __CPROVER_ensures(g_inc_calls == 1 && g_inc_arg == (r))       /* the returned root is counted exactly once (C18) */ \
+  __CPROVER_ensures(g_dleaf_calls <= 1 && (g_dleaf_calls == 1 ==> (ISLEAF(g_dleaf_arg) && T_DATA[g_dleaf_arg] == g_dflt && (r) == g_node)))  /* only the unused sink may be disposed of */
+#define CONTRACT_CONSTRUCT_ID  PRE_CONSTRUCT __CPROVER_requires(g_off == 0) __CPROVER_assigns(TAB_GHOSTS) POST_CONSTRUCT(__CPROVER_return_value)
+#define CONTRACT_CONSTRUCT_OFF PRE_CONSTRUCT __CPROVER_requires(v_varTrans_coerce == g_offp && *g_offp == g_off) __CPROVER_assigns(TAB_GHOSTS) POST_CONSTRUCT(__CPROVER_return_value)
+#define INV_CONSTRUCT \
+  __CPROVER_loop_invariant(v_i_slot <= g_len && v_asgn_addr_slot == g_a && v_defaultValue_addr_slot == g_dfltp && v_node_slot.f0 == g_node) \
+  __CPROVER_loop_invariant(v_sink_slot.f0 != 0 && ISLEAF(v_sink_slot.f0) && T_DATA[v_sink_slot.f0] == g_dflt && T_VAL[v_sink_slot.f0] == g_dflt) \
+  __CPROVER_loop_invariant(v_procNode_slot.f0 != 0 && v_procNode_slot.f0 != v_sink_slot.f0 && T_VAL[v_procNode_slot.f0] == SEL(v_i_slot) && LEVEL(v_procNode_slot.f0) <= v_i_slot + g_off) \
+  __CPROVER_loop_invariant(g_inc_calls == 0 && g_dleaf_calls == 0)
+#define DEC_CONSTRUCT __CPROVER_decreases(g_len - v_i_slot)
+#define LOOPASG_CONSTRUCT_ID__B_for_cond , TAB_GHOSTS
+#define LOOP_CONSTRUCT_ID__B_for_cond INV_CONSTRUCT DEC_CONSTRUCT
+#define LOOPASG_CONSTRUCT_OFF__B_for_cond , TAB_GHOSTS
+#define LOOP_CONSTRUCT_OFF__B_for_cond INV_CONSTRUCT __CPROVER_loop_invariant(v_varTrans_slot.f0 == g_offp && *g_offp == g_off) DEC_CONSTRUCT
